@@ -25,6 +25,10 @@ Connect(c) == /\ phase[c] = "none"
                    ELSE /\ phase' = [phase EXCEPT ![c] = "accepted"]
                         /\ counter' = IF KF_CountAfterHandshake THEN counter ELSE counter + 1
               /\ UNCHANGED shells /\ H("connect", c)
+\* listenerLoop: Accept itself fails for one attempt (the client gave up while still in the backlog - ECONNABORTED -, or
+\* the process is momentarily out of file descriptors - EMFILE): that attempt is lost, nothing else changes, the
+\* server goes on accepting (c may come again)
+AcceptError(c) == /\ phase[c] = "none" /\ UNCHANGED <<phase, shells, counter>> /\ H("accepterror", c)
 \* handleConnection: NewServerConn succeeds (valid key / health password) ...
 HandshakeOK(c) == /\ phase[c] = "accepted" /\ phase' = [phase EXCEPT ![c] = "authed"]
                   /\ counter' = IF KF_CountAfterHandshake THEN counter + 1 ELSE counter
@@ -53,7 +57,7 @@ UnknownRequest(c) == /\ phase[c] = "authed" /\ phase' = [phase EXCEPT ![c] = "cl
 Close(c) == /\ phase[c] = "authed" /\ phase' = [phase EXCEPT ![c] = "closed"]
             /\ counter' = IF KF_DecrementPerShell THEN counter - shells[c] ELSE counter - 1
             /\ UNCHANGED shells /\ H("close", c)
-Next == \E c \in Conns : Connect(c) \/ HandshakeOK(c) \/ HandshakeFail(c) \/ ShellRequest(c) \/ OtherChannel(c) \/ ChannelBurst(c) \/ UnknownRequest(c) \/ Close(c)
+Next == \E c \in Conns : Connect(c) \/ AcceptError(c) \/ HandshakeOK(c) \/ HandshakeFail(c) \/ ShellRequest(c) \/ OtherChannel(c) \/ ChannelBurst(c) \/ UnknownRequest(c) \/ Close(c)
 Spec == Init /\ [][Next]_vars
 viewNoHist == <<phase, shells, counter>>
 
